@@ -13,6 +13,7 @@ def pmap(fn, items, nproc=None, chunk=None):
     global _FN
     items = list(items)
     nproc = nproc or min(16, os.cpu_count() or 1)
+    nproc = max(1, min(nproc, int(os.environ.get("VH_MAX_WORKERS", "16"))))
     if len(items) < 64 or nproc == 1:
         return [fn(x) for x in items]
     chunk = chunk or max(1, min(2000, len(items) // (nproc * 4)))
